@@ -155,7 +155,7 @@ def gen(rnd, n):
         slot = rnd.choice([0, 0, 2])
         scs.append({"id": "slc%d" % i, "family": "slc", "target": {"policy": rnd.choice(["LargeOK", "LargeRefused"]), "identity": S.identity(name="1747-L552")},
                     "slc": tab, "driver": {"kind": "slc", "path": "10.6.6.6" + ("/%d" % slot if slot else ""), "route": [S.port_seg("bp", slot)]},
-                    "calls": calls})
+                    "calls": calls, "chunk": rnd.choice([4096, 4096, 256, 100, 7])})
     return scs
 
 
